@@ -53,10 +53,24 @@ func (f *Ash) Call(s *slip.Scope, args slip.List, depth int) (result slip.Object
 	sh := int(shift)
 	switch ti := args[0].(type) {
 	case slip.Fixnum:
-		if sh < 0 {
-			result = slip.Fixnum(uint64(ti) >> -sh)
-		} else {
-			result = slip.Fixnum(uint64(ti) << sh)
+		switch {
+		case ti == 0:
+			result = ti
+		case sh <= -64:
+			// All bits are shifted out, only the sign remains.
+			if ti < 0 {
+				result = slip.Fixnum(-1)
+			} else {
+				result = slip.Fixnum(0)
+			}
+		case sh < 0:
+			// An arithmetic shift, it keeps the sign and rounds down.
+			result = ti >> -sh
+		case sh < 64 && (ti<<sh)>>sh == ti:
+			result = ti << sh
+		default: // overflow, promote to a bignum
+			var z big.Int
+			result = (*slip.Bignum)(z.Lsh(big.NewInt(int64(ti)), uint(sh)))
 		}
 	case slip.Octet:
 		if sh < 0 {
